@@ -6,6 +6,7 @@
 package pfcpiface
 
 import (
+	"io"
 	"encoding/json"
 	"errors"
 	"fmt"
@@ -116,6 +117,13 @@ func (e *c19Env) serve(cs c19Case) *c19Writer {
 			c19ErrReader
 			nopCloser
 		}{}
+		if cs.Body != "" {
+			// the transfer fails after cs.Body has arrived (e.g. a shorter body than the announced Content-Length)
+			req.Body = struct {
+				io.Reader
+				nopCloser
+			}{Reader: io.MultiReader(strings.NewReader(cs.Body), c19ErrReader{})}
+		}
 	}
 	w := &c19Writer{hdr: http.Header{}}
 	fr, msg := vCatch(func() { e.h.ServeHTTP(w, req) })
@@ -322,6 +330,19 @@ func TestVerifC19(t *testing.T) {
 				cs := base
 				cs.Method, cs.ErrRd = m, true
 				e.check(cs)
+			}
+			// a complete, valid document and then the transfer fails; a complete document followed by something else
+			for _, m := range methods[:3] {
+				for i := 0; i < len(docs); i += len(docs)/8 + 1 {
+					cs := base
+					cs.Method, cs.ErrRd, cs.Body = m, true, docs[i].body()
+					e.check(cs)
+					for _, tail := range []string{"}", "]", " }", "\n]", ",", "{}", " null", "1", `"x"`, "}}", ":", docs[i].body()} {
+						cs := base
+						cs.Method, cs.Body = m, docs[i].body()+tail
+						e.check(cs)
+					}
+				}
 			}
 		}
 		e.in.close()
